@@ -152,6 +152,20 @@ def run_op_case(ns, mon, case):
         counters["repeat_digests"] = 1
         if any(digest(p) != digest(q.data) for p, q in zip(first, outs2)):
             viol.append(V(f"{sig}:repeat-not-bit-identical", "repeating the op on unchanged operands gave different bits", args=a))
+    if op.name != "dropout" and case["kind"] == "nn":
+        # an earlier result is a value: a later call of the same op (same shapes, other values) must not rewrite it
+        try:
+            saved_xs = list(xs)
+            xs[:] = [x if i_ else (np.asarray(x, dtype=np.float64) * -0.7 + 0.9).astype(x.dtype) if specs[k_].get("vclass") not in ("prob", "positive", "runvar") else x
+                     for k_, (x, i_) in enumerate(zip(saved_xs, ints))]
+            with np.errstate(all="ignore"):
+                fwd(False)
+            xs[:] = saved_xs
+            counters["result_stability_checks"] = 1
+            if any(digest(p) != digest(o.data) for p, o in zip(first, outs)):
+                viol.append(V(f"{sig}:earlier-result-rewritten-by-later-call", "the data of an earlier result changed when the op was called again on other values", args=a))
+        except Exception:
+            xs[:] = saved_xs
     if outs and all(o.requires_grad for o in outs):
         gs = [gen.upstream(rng, o.shape, "normal").astype(dt) for o in outs]
         gts = [T(g) for g in gs]
@@ -320,6 +334,29 @@ def run_mutators(ns, mon, case):
     ns.init.constant_(t1, 2.0)
     if snap([t2.data]) != s_t2:
         viol.append(V("init:modified-other-tensor", "an initialiser changed a tensor it was not given"))
+    # copy.deepcopy of a parameter / module that holds gradients: the copy owns its data AND its gradient buffer
+    import copy as _copy
+    lin_c = nn.Linear(3, 2)
+    (lin_c(T(rng.standard_normal((4, 3)).astype(np.float32))).sum()).backward()
+    g_before = [None if p_._grad is None else p_._grad.copy() for p_ in lin_c.parameters()]
+    d_before = [p_.data.copy() for p_ in lin_c.parameters()]
+    try:
+        for cp in (_copy.deepcopy(lin_c), _copy.deepcopy(lin_c.weight)):
+            cps = cp.parameters() if hasattr(cp, "parameters") else [cp]
+            n += 1
+            for q in cps:
+                q.data[...] = q.data * 0.0 + 5.0
+            tot_ = None
+            for q in cps:
+                t_ = (q * q).sum()
+                tot_ = t_ if tot_ is None else tot_ + t_
+            tot_.backward()
+            if any(not np.array_equal(p_.data, d0) for p_, d0 in zip(lin_c.parameters(), d_before)):
+                viol.append(V("deepcopy:shares-data", "writing into a deep copy changed the data of the original"))
+            if any((p_._grad is None) != (g0 is None) or (g0 is not None and not np.array_equal(p_._grad, g0)) for p_, g0 in zip(lin_c.parameters(), g_before)):
+                viol.append(V("deepcopy:shares-gradient-buffer", "a backward pass through a deep copy changed the .grad of the original (outside the graph being differentiated)"))
+    except Exception as e:
+        viol.append(V("deepcopy:raises", f"copy.deepcopy of a layer / parameter raised {type(e).__name__}", error=str(e)[:200]))
     # zero_ / zero_grad touch gradients only
     d0 = lin.weight.data.copy()
     lin.zero_grad(); lin.weight.zero_()
